@@ -52,6 +52,7 @@ class AssembleAction : public Action {
 class SerialAssembleAction : public AssembleAction {
   public:
     using AssembleAction::AssembleAction;
+    virtual ~SerialAssembleAction();
 
   protected:
     virtual void onPause() override;
@@ -72,8 +73,12 @@ class SerialAssembleAction : public AssembleAction {
     void onLastChildFinished(bool is_succ, const Reason &reason, const Trace &trace);
 
   private:
+    void cancelChildFinishReplay();
+
+  private:
     Action *curr_action_ = nullptr;     //! 当前正在执行的动作
     ChildFinishFunc child_finish_func_; //! 上一个动用缓存的finish事件
+    event::Loop::RunId child_finish_run_id_ = 0;  //! 恢复时重放child_finish_func_的任务号，用于撤消
 };
 
 }
